@@ -121,6 +121,7 @@ def run(ctx):
     if metas: ctx.sample(dict(kind='hazard grid point', **{k: str(v) for k, v in metas[0].items()}))
     ctx.guard('tables', tables, ctx, ss)
     ctx.guard('ageing_and_disease_pars', ageing_and_disease_pars, ctx, ss)
+    ctx.guard('module_own_step', module_own_step, ctx, ss)
     ctx.guard('routine_delivery', routine_delivery, ctx, ss)
     ctx.guard('mixing_pools', mixing_pools, ctx, ss)
 
@@ -178,6 +179,35 @@ def ageing_and_disease_pars(ctx, ss):
             want_b = 1 - (1 - 0.1) ** float(sis.t.dt)
             if abs(float(bv.values) - want_b) > 1e-12:
                 ctx.violation(f'SIS.beta with unit={unit}, dt={dt}: per-step value {float(bv.values)}, 1-(1-beta)^dt = {want_b}', dict(unit=unit, dt=dt, par='beta'))
+
+
+def module_own_step(ctx, ss):
+    """A module on its own step inside a sim that also holds modules on other steps (networks and demographics are initialised before it):
+    every rate, probability and duration of the module is converted with the module's OWN step."""
+    rng = ctx.rng
+    for sim_dt, net_dt, dis_dt, dem_dt in ((1.0, None, 0.5, None), (1.0, None, 2.0, 0.25), (0.5, 1.0, 0.25, None), (1.0, 0.5, 0.5, 2.0), (1.0, None, 1.0, None)):
+        W = dict(probe='module-own-step', sim_dt=sim_dt, network_dt=net_dt, disease_dt=dis_dt, demographics_dt=dem_dt)
+        dis = ss.SIS(dt=dis_dt, beta=0.1, waning=0.05, dur_inf=ss.constant(v=ss.dur(10)))
+        dis2 = ss.SIR(dt=2 * dis_dt, beta=0.2, dur_inf=ss.constant(v=ss.dur(8)))
+        net = ss.RandomNet(**({} if net_dt is None else dict(dt=net_dt)))
+        dem = [ss.Deaths(death_rate=ss.peryear(20), **({} if dem_dt is None else dict(dt=dem_dt))), ss.Births(birth_rate=ss.peryear(30), **({} if dem_dt is None else dict(dt=dem_dt)))]
+        sim = ss.Sim(n_agents=30, dt=sim_dt, dur=8, diseases=[dis, dis2], networks=net, demographics=dem, verbose=0); sim.init()
+        ctx.count(('own-step', sim_dt, net_dt, dis_dt, dem_dt), nontrivial=True); ctx.dist('module on its own step among other modules')
+        for d, b0, dur0 in ((sim.diseases[0], 0.1, 10.0), (sim.diseases[1], 0.2, 8.0)):
+            mdt = float(d.t.dt)
+            got_b = float(d.pars.beta.values) if getattr(d.pars.beta, 'values', None) is not None else float(d.pars.beta.v)
+            want_b = 1 - (1 - b0) ** mdt
+            if abs(got_b - want_b) > 1e-12:
+                ctx.violation(f'{d.name} with dt={mdt} in a sim with dt={sim_dt} (network dt {net_dt}): per-step transmission probability {got_b}; 1-(1-{b0})^dt = {want_b}', dict(W, module=d.name, par='beta'))
+            got_d = float(np.asarray(d.pars.dur_inf.rvs(sim.people.auids[:2]), dtype=float)[0]); want_d = dur0 / mdt
+            if abs(got_d - want_d) > 1e-9:
+                ctx.violation(f'{d.name} with dt={mdt} in a sim with dt={sim_dt} (network dt {net_dt}): a duration of {dur0} years is {got_d} module steps; {dur0}/dt = {want_d}', dict(W, module=d.name, par='dur_inf'))
+        w = sim.diseases[0].pars.waning
+        if getattr(w, 'values', None) is not None and abs(float(w.values) - 0.05 * float(sim.diseases[0].t.dt)) > 1e-12:
+            ctx.violation(f'sis.waning with dt={float(sim.diseases[0].t.dt)} in a sim with dt={sim_dt}: per-step value {float(w.values)}, rate x dt = {0.05 * float(sim.diseases[0].t.dt)}', dict(W, module='sis', par='waning'))
+        br = sim.demographics[1].pars.birth_rate
+        if getattr(br, 'values', None) is not None and abs(float(br.values) - 30 * float(sim.demographics[1].t.dt)) > 1e-9:
+            ctx.violation(f'births.birth_rate (30 per year) with dt={float(sim.demographics[1].t.dt)} in a sim with dt={sim_dt}: per-step value {float(br.values)}, rate x dt = {30 * float(sim.demographics[1].t.dt)}', dict(W, module='births', par='birth_rate'))
 
 
 def routine_delivery(ctx, ss):
